@@ -121,6 +121,50 @@ def refusal_cases(run, rng, n):
                                "got": got.tolist(), "want": want.tolist()}, tag="ref")
 
 
+def several_q_chunked(run, rng, n):
+    """'for each requested q': several lazy order statistics of ONE chunked array, differing only in q / in median vs quantile,
+    evaluated together (one graph), each compared with NumPy on its group's members"""
+    import dask
+    import dask.array as da
+    import numpy as np
+
+    import flox
+
+    for _ in range(n):
+        m = rng.randint(4, 12)
+        labels = np.array(sorted(rng.randrange(3) for _ in range(m)))
+        vals = np.array([float(rng.randint(-5, 5)) for _ in range(m)])
+        if rng.random() < 0.5:
+            vals[rng.randrange(m)] = np.nan
+        cuts = [i for i in range(1, m) if labels[i] != labels[i - 1]]
+        pts = [0] + sorted(rng.sample(cuts, k=rng.randint(0, len(cuts)))) + [m]
+        chunks = tuple(b - a for a, b in zip(pts, pts[1:]))
+        func = rng.choice(["quantile", "nanquantile"])
+        qs = rng.sample([0.0, 0.125, 0.25, 0.5, 0.75, 1.0], k=rng.randint(2, 3))
+        if rng.random() < 0.3:
+            qs = [[qs[0], qs[1]], [qs[1], qs[0]]]           # vectors of the same length
+        arr = da.from_array(vals, chunks=(chunks,))
+        try:
+            with warnings.catch_warnings():
+                warnings.simplefilter("ignore")
+                lazies = [flox.groupby_reduce(arr, labels, func=func, method=rng.choice([None, "blockwise"]), engine="flox",
+                                              finalize_kwargs={"q": q})[0] for q in qs]
+                got = [np.asarray(x, dtype=float) for x in dask.compute(*lazies, scheduler="sync")]
+        except (ValueError, NotImplementedError):
+            continue
+        npf = np.quantile if func == "quantile" else np.nanquantile
+        run.count(f"multiq|{vals.tolist()}|{labels.tolist()}|{chunks}|{func}|{qs}", True)
+        for q, g in zip(qs, got):
+            with warnings.catch_warnings():
+                warnings.simplefilter("ignore")
+                want = np.stack([npf(vals[labels == k], q) for k in np.unique(labels)], axis=-1)
+            if g.shape != want.shape or not np.allclose(g, want, equal_nan=True):
+                run.violation({"property": "C18", "kind": "order statistics for several q of one chunked array, evaluated together, are not NumPy's for each q",
+                               "vals": [I.fnum(x) for x in vals], "labels": labels.tolist(), "chunks": list(chunks), "func": func, "qs": qs, "q": q,
+                               "got": [I.fnum(x) for x in g.reshape(-1)], "want": [I.fnum(x) for x in want.reshape(-1)]}, tag="multiq")
+                break
+
+
 def run(run: C.Run):
     rng = random.Random(run.seed)
     P.front(run, translators=())
@@ -146,6 +190,7 @@ def run(run: C.Run):
     run.sample({"quantile_case": coq[-1] if coq else None})
     eval_simple(run, "quant", "quantile_case_ok", coq, "correspondence:K2 Quantile.flox_quantile == flox (engine='flox') == Quantile.spec_quantile")
     refusal_cases(run, rng, 300 if thorough else 60)
+    several_q_chunked(run, rng, 400 if thorough else 80)
     if any(not o[1] for o in run.obligations) and not run.violations:
         run.violation({"property": "C18", "kind": "proof obligation / correspondence no longer checks",
                        "failed": P.failed_obligations(run)}, nofail=True, tag="obligation")
